@@ -71,5 +71,5 @@ AllReplaced        == \A r \in Results : r.replaced
 KwargsUnchanged    == \A r \in Results : ~r.kwMut
 DefaultsDeclared   == st.defs = DeclaredDefs
 \* ranges follow from the options of the call (the shift of a layer is below `used.sp`, scales below 2^(used.sb-1))
-OptionsInRange     == \A r \in Results : r.used.sb \in 2..32 /\ r.used.sp \in 1..32
+OptionsInRange     == \A r \in Results : r.used.sb \in 1..32 /\ r.used.sp \in 1..32
 =============================================================================
